@@ -467,6 +467,7 @@ func (c *Conn) Read(b []byte) (int, error) {
 			}
 			c.pending -= got
 			c.Received += int64(got)
+			simrt.Progress()
 			simrt.RaceAcquire(unsafe.Pointer(&ioSync))
 			if n.TapRead != nil {
 				n.TapRead(c.pair.ID, 1-c.dir(), b[:got])
@@ -554,6 +555,7 @@ func (c *Conn) Write(b []byte) (int, error) {
 }
 
 func (c *Conn) deliver(data []byte) {
+	simrt.Progress()
 	simrt.RaceRelease(unsafe.Pointer(&ioSync))
 	n := c.pair.n
 	p := c.peer
